@@ -548,6 +548,19 @@ def _subreplies_in_request_order(ctx):
                 ok = any((callee_of(t2) or callee_decl(t2) or "") in ORDERED for x in fam for _, t2 in x.calls())
             if not ok and c.endswith("IntoIterator>::into_iter"):
                 ok = True   # awaited one after the other
+            # whatever the route: the results must not pass through a completion-ordered combinator
+            UNORDERED = ("FuturesUnordered", "BufferUnordered", "buffer_unordered", "SelectAll", "select_all", "select_ok")
+
+            def unordered(term):
+                txt = " ".join([term.get("inst") or "", callee_of(term) or "", callee_decl(term) or ""] + list(term.get("targs") or []) + list(term.get("atys") or []))
+                return any(u in txt for u in UNORDERED)
+            scope = [b]
+            if c in F.bodies:
+                scope += [F.bodies[c]] + [x for x in F.all_bodies(bins=False) if x.path.startswith(c + "::{closure")]
+            hits = [(x, bb2) for x in scope for bb2, t2 in x.calls() if unordered(t2) and (x is not b or cb in dom.get(bb2, ()) or bb2 == cb)]
+            if hits:
+                ok = False
+                c = c + " / " + (callee_of(hits[0][0].blocks[hits[0][1]].term) or callee_decl(hits[0][0].blocks[hits[0][1]].term) or "")
             ctx.check(ok, R, "subreplies-in-request-order:%s" % b.path.split("::{closure")[0].rsplit("::", 1)[-1], site(b, cb), ok="sub-replies are awaited by %s (keeps the order of the futures)" % c,
                       bad="the reply is assembled position by position from sub-command results that are awaited by %s, which does not yield them in the order of the requests: values are returned for the wrong keys" % c)
     ctx.floor(R, "positional fan-out handlers", n, 1)
